@@ -1281,6 +1281,7 @@ class Interp:
             s0 = entry.clone()
             f0 = s0.frames[-1]
             mapping = self.havoc(s0, f0, hav, head, inst)
+            vec_heads = list(self._vec_heads)
             ghosts = list(self.ghost_vars(fn, head)) if self.ghost_vars else []
             mapping = mapping + ghosts
             s0.ghost[('iter-start', depth, head)] = len(s0.calls)
@@ -1326,9 +1327,23 @@ class Interp:
                         self._havocked_deref_set = havocked_derefs
                         self._havocked_refs_set = havocked_refs
                         cur = self.current_values(o.state, o.state.frames[-1], hav, mapping)
+                        for (vt, ev, loc) in vec_heads:
+                            try:
+                                cell = o.state.frames[-1].cells[loc[1]]
+                                vv = cell.v
+                                if loc[0] == 'deref':
+                                    vv = self.load(o.state, vv.cell, vv.path)
+                                if isinstance(vv, Sym) and vv.term == vt and vv.wr and all(isinstance(k, tuple) and len(k) == 2 and k[0] == '#elem' for k in vv.wr):
+                                    # element writes into the loop-carried vector: (index term, value term) pairs
+                                    cur[vt] = ('upd*', vt, tuple((k[1], self.to_term(o.state, vv.over[k])) for k in vv.wr))
+                                else:
+                                    cur[vt] = self.to_term(o.state, vv)
+                            except Exception:
+                                pass
                         self.back_states.append((fn.path, head, o.state, mapping, valid, cur))
                 self.head_states.append((fn.path, head, s0_snapshot, mapping, valid, entry))
                 self.loop_records[(head, inst)] = {'fn': fn.path, 'fnobj': fn, 'head': head, 'inst': inst, 'mapping': mapping, 'snapshot': s0_snapshot,
+                                                   'vec_heads': {vt: (ev, loc) for vt, ev, loc in vec_heads},
                                                    'backs': [(b[2], b[5]) for b in self.back_states if b[0] == fn.path and b[1] == head and b[3] is mapping]}
                 return final
             dropped |= bad
@@ -1337,6 +1352,7 @@ class Interp:
         """locals assigned inside the loop (directly, or through a &mut taken in the loop)"""
         mod = set()
         deref_written = set()
+        deref_assigned = set()     # written by an assignment in the loop itself (not merely lent to a callee)
         assigned = set()
         for b in body:
             blk = fn.blocks[b]
@@ -1345,6 +1361,7 @@ class Interp:
                     pl = s[1]
                     if any(e[0] == 'deref' for e in pl['p']):
                         deref_written.add(pl['l'])
+                        deref_assigned.add(pl['l'])
                     else:
                         mod.add(pl['l'])
                         if not pl['p']:
@@ -1386,13 +1403,16 @@ class Interp:
                         continue
                     root = src['l']
                     if any(e[0] == 'deref' for e in src['p']):
+                        if s[1]['l'] in deref_assigned and root not in deref_assigned:
+                            deref_assigned.add(root)
+                            changed = True
                         if root not in deref_written:
                             deref_written.add(root)
                             changed = True
                     elif root not in mod:
                         mod.add(root)
                         changed = True
-        return (sorted(mod), sorted(deref_written), assigned)
+        return (sorted(mod), sorted(deref_written), assigned, deref_assigned)
 
     def havoc(self, st, fr, hav, head, inst=0):
         """replace the modified scalars by fresh variables; returns [(fresh var, entry value)]"""
@@ -1450,6 +1470,7 @@ class Interp:
 
         self._havocked = []
         self._havocked_refs = []
+        self._vec_heads = []
         for l in mod:
             c = fr.cells[l]
             if c.v is None:
@@ -1465,7 +1486,9 @@ class Interp:
                 if len(mapping) > before:
                     self._havocked_refs.append(l)
             else:
+                before_v = c.v
                 c.v = hv(c.v, name)
+                self._note_vec_head(st, before_v, c.v, ('local', l))
         # containers that are being iterated mutably: elements may be overwritten in the loop body
         for c in fr.cells:
             it = c.v
@@ -1487,12 +1510,26 @@ class Interp:
         for l in derefs:
             v = fr.cells[l].v
             if isinstance(v, Ref):
-                self._havocked_derefs.append(l)
                 tgt = self.load(st, v.cell, v.path)
+                if (isinstance(tgt, Sym) and split_generics(tgt.ty or '')[0] in self.stable_mut_types and len(hav) > 3 and l not in hav[3]):
+                    # the hash-consing manager lent to callees: its methods are functions of their other arguments as
+                    # far as term values go (same convention as in uninterp_call), so it keeps its identity
+                    continue
+                self._havocked_derefs.append(l)
                 name = fr.fn.locals[l]['name'] or ('_%d' % l)
                 newv = hv(tgt, '*' + name)
                 self.store(st, v.cell, v.path, newv)
+                self._note_vec_head(st, tgt, newv, ('deref', l))
         return mapping
+
+    def _note_vec_head(self, st, before, after, loc):
+        """a vector-like object (list under construction, symbolic sequence) replaced by a head variable: remember its
+        entry value and where it lives, so that its value at the back edges can be read (loopsum closed forms)"""
+        if isinstance(after, Sym) and isinstance(after.term, tuple) and after.term[0] == 'var' and isinstance(before, (ListV, Sym)):
+            try:
+                self._vec_heads.append((after.term, self.to_term(st, before), loc))
+            except Exception:
+                pass
 
     def current_values(self, st, fr, hav, mapping):
         """map each head variable to its value at the back edge (same traversal order as havoc)"""
